@@ -124,6 +124,8 @@ def run(workdir, module, cfg, workers=16, simulate=None, depth=None, seed=None, 
     r = parse_output(out)
     r.wall = time.time() - t0
     r.returncode = p.returncode
+    if r.violated is None and not r.deadlock and not r.finished and "Overflow when computing" in out:
+        r.violated = "evaluation-error"          # TLC's 32-bit integers: callers isolate and skip the offending case
     if r.violated is None and not r.deadlock and not r.finished:
         raise TLCError("TLC failed (rc=%s):\n%s" % (p.returncode, out[-4000:]))
     r.ok = r.violated is None and not r.deadlock
@@ -277,3 +279,24 @@ def sany(path):
     ok = p.returncode == 0 and "Semantic errors" not in out and "Parse Error" not in out \
         and "Fatal errors" not in out and "Could not" not in out
     return ok, out
+
+
+class Overflow(Exception):
+    """TLC aborted with an integer overflow while evaluating a batch of cases."""
+
+
+def eval_with_bisect(run_fn, items, on_skip=None):
+    """run_fn(items) -> list of results (same length) or raises Overflow.  A batch in which some case leaves TLC's
+    32-bit integers is split until the offending cases are isolated; those are answered None (skipped and counted
+    by the caller), never guessed."""
+    if not items:
+        return []
+    try:
+        return run_fn(items)
+    except Overflow:
+        if len(items) == 1:
+            if on_skip:
+                on_skip(items[0])
+            return [None]
+        mid = len(items) // 2
+        return eval_with_bisect(run_fn, items[:mid], on_skip) + eval_with_bisect(run_fn, items[mid:], on_skip)
